@@ -108,3 +108,12 @@ Example C05_diag_any_example :
                                (MkTri 2 1 [:: [:: 3]; [:: 1]] [:: [:: 1]; [:: 2]] [:: [:: [:: 1]]; [:: [:: 1]]])%R : qsm rat_fieldType in
   qwfn 2%N Sq /\ first_row_ok Sq /\ isSome (qsm_mul (fops (fun x => x) (fun _ _ => false)) (Diag 2 [:: 2; 3]%R) Sq).
 Proof. by []. Qed.
+(* the whole column "any kind @ diagonal" of the literal model *)
+Theorem C05_matmul_any_diag_literal (F : fieldType) sq lt n m (y : vec F) (A C : qsm F) : qwfn n A -> first_row_ok_l A ->
+  qsm_mul (fops sq lt) A (Diag m y) = Some C -> den n C = den n A *m den n (Diag m y).
+Proof. exact: mul_any_diag_sound. Qed.
+Theorem C05_matmul_any_diag_literal_agrees (F : fieldType) sq lt n (y : vec F) (A C C' : qsm F) : qwfn n A -> first_row_ok_l A ->
+  qsm_mul (fops sq lt) A (Diag n y) = Some C -> qsm_mul_u (fops sq lt) A (Diag n y) = Some C' -> den n C = den n C'.
+Proof. exact: mul_any_diag_agrees. Qed.
+Print Assumptions C05_matmul_any_diag_literal.
+Print Assumptions C05_matmul_any_diag_literal_agrees.
